@@ -53,3 +53,10 @@ Example C10_agree_example :
   run_str [97; 58; 32; 91; 98; 44; 32; 34; 99; 34; 93; 10]%N = run_buf 8 [97; 58; 32; 91; 98; 44; 32; 34; 99; 34; 93; 10]%N
   /\ snd (run_str [97; 58; 32; 91; 98; 44; 32; 34; 99; 34; 93; 10]%N) = PDone.
 Proof. vm_compute. split; reflexivity. Qed.
+
+(* with total correctness of the string run (C01_pipeline_ends_properly): equal results unless the BUFFERED run exhausts
+   its fuel (bounded work is proved for the string instance only) *)
+Theorem C10_pipeline_backends_agree_total : forall (orig : list N) cap, (8 <= cap)%nat ->
+  run_str orig = run_buf cap orig \/ snd (run_buf cap orig) = PFuel.
+Proof. exact pipeline_backends_agree_total. Qed.
+Print Assumptions C10_pipeline_backends_agree_total.
